@@ -15,19 +15,36 @@ OpenTmp == pc = "start" /\ tmp' = "partial" /\ written' = 0 /\ pc' = "writing" /
 Write == pc = "writing" /\ written < Pieces /\ written' = written + 1 /\ UNCHANGED <<f, tmp, pc, crashed>>
 Close == pc = "writing" /\ written = Pieces /\ tmp' = "new" /\ pc' = "closed" /\ UNCHANGED <<f, written, crashed>>
 Rename == pc = "closed" /\ f' = tmp /\ tmp' = "none" /\ pc' = "done" /\ UNCHANGED <<written, crashed>>
-Crash == ~crashed /\ pc # "done" /\ crashed' = TRUE /\ pc' = "dead" /\ UNCHANGED <<f, tmp, written>>
-Next == OpenTmp \/ Write \/ Close \/ Rename \/ Crash
+Crash == ~crashed /\ pc \notin {"done", "dead"} /\ crashed' = TRUE /\ pc' = "dead" /\ UNCHANGED <<f, tmp, written>>
+\* a call that reports an error (disk full, quota): the save gives up; the temporary file may be removed
+OpenFail == pc = "start" /\ pc' = "failed" /\ UNCHANGED <<f, tmp, written, crashed>>
+WriteFail == pc = "writing" /\ written < Pieces /\ pc' = "failed" /\ UNCHANGED <<f, tmp, written, crashed>>
+CloseFail == pc = "writing" /\ written = Pieces /\ pc' = "failed" /\ UNCHANGED <<f, tmp, written, crashed>>
+RenameFail == pc = "closed" /\ pc' = "failed" /\ UNCHANGED <<f, tmp, written, crashed>>
+Cleanup == pc = "failed" /\ tmp # "none" /\ tmp' = "none" /\ UNCHANGED <<f, pc, written, crashed>>
+Next == OpenTmp \/ Write \/ Close \/ Rename \/ Crash \/ OpenFail \/ WriteFail \/ CloseFail \/ RenameFail \/ Cleanup
 Spec == Init /\ [][Next]_vars
 NeverPartial == f \in {"none", "old", "new"}
+FailedKeepsOld == pc = "failed" => f \in {"none", "old"}
 OnlyByRename == [][f' # f => (pc = "closed" /\ tmp = "new" /\ f' = "new")]_vars
 
 \* ---- the same protocol as a checker of recorded file-system calls (trace validation)
-FsCall(fn, isTmp, isFinal) ==
-  CASE fn = "fopen" -> isTmp /\ OpenTmp
-    [] fn = "fprintf" -> pc = "writing" /\ UNCHANGED vars
-    [] fn = "fclose" -> pc = "writing" /\ tmp' = "new" /\ pc' = "closed" /\ UNCHANGED <<f, written, crashed>>
-    [] fn = "rename" -> isFinal /\ Rename
-    [] OTHER -> FALSE
+\* failed = the call reported an error (no space left ...): the temporary file is then incomplete, and the only
+\* thing the save may still do is remove it - in particular it must NOT rename it over the save file
+FsCall(fn, isTmp, isFinal, failed) ==
+  IF failed
+  THEN /\ fn \in {"fopen", "fprintf", "fclose", "rename", "unlink"} /\ pc \in {"start", "writing", "closed", "failed"}
+       /\ pc' = "failed" /\ tmp' = (IF fn = "fopen" THEN tmp ELSE IF tmp = "none" THEN "none" ELSE "partial")
+       /\ UNCHANGED <<f, written, crashed>>
+  ELSE CASE fn = "fopen" -> isTmp /\ OpenTmp
+         [] fn = "fprintf" -> pc \in {"writing", "failed"} /\ UNCHANGED vars
+         [] fn = "fclose" -> \/ pc = "writing" /\ tmp' = "new" /\ pc' = "closed" /\ UNCHANGED <<f, written, crashed>>
+                             \/ pc = "failed" /\ UNCHANGED vars                   \* closing what could not be written
+         [] fn = "unlink" -> pc = "failed" /\ isTmp /\ tmp' = "none" /\ UNCHANGED <<f, pc, written, crashed>>
+         [] fn = "rename" -> isFinal /\ Rename                                     \* (not enabled once a call has failed)
+         [] OTHER -> FALSE
+\* what save_object() answered and what is on disk after a save in which a call failed
+AfterFail(finalIs, ret) == pc = "failed" /\ finalIs = "old" /\ ret = 0 /\ UNCHANGED vars
 \* what is found on disk after a crash before call number k
 AfterCrash(finalIs) == finalIs \in {"old", "new"} /\ (finalIs = "new" => pc = "done") /\ UNCHANGED vars
 =============================================================================
